@@ -221,32 +221,8 @@ func layoutVariants(text string, thorough bool) map[string]string {
 	return out
 }
 
-func requestUniverse(csvPath string) [][]interface{} {
-	data, err := os.ReadFile(csvPath)
-	if err != nil {
-		return nil
-	}
-	vals := map[string]bool{}
-	for _, line := range strings.Split(string(data), "\n") {
-		for i, f := range strings.Split(line, ",") {
-			if i > 0 {
-				vals[strings.TrimSpace(f)] = true
-			}
-		}
-	}
-	var vs []string
-	for v := range vals {
-		vs = append(vs, v)
-	}
-	sort.Strings(vs)
-	if len(vs) > 7 {
-		vs = vs[:7]
-	}
-	return nil
-}
-
 func runC08(c *Ctx) {
-	c.Rule = "every examples/*.conf plus generated model texts x the layout transformations (CRLF, padding every line, padding one line past 4 KiB on either side, the last line padded to exactly 4096/8192 bytes without a final newline, tabs around '=' and ',' inside r/p definitions, blank/#/; lines at every position outside a continuation, an inline comment after every definition introduced by either marker and containing the other, an inline comment before the backslash of a continued line, a comment line longer than the buffer above a line longer than the buffer, backslash continuation split at every single blank of every definition line incl. past 4 KiB, reversed and rotated section order): the assertions (Key, Value, Tokens, ParamsTokens of r/p/g/e/m) of the real NewModelFromString are compared with the Lean mirror (and NewModelFromFile on a file holding the same text must give the same outcome), and every variant with its original (same definitions) and on the example's policy with the original's decisions; arbitrary text (mutated examples, random bytes) for totality; non-trivial = a variant that differs textually from its original and loads; distinct = variant text"
+	c.Rule = "every examples/*.conf plus one generated model text with several definitions per section x the layout transformations (CRLF, padding every line, padding one line past 4 KiB on either side, the last line padded to exactly 4096/8192 bytes without a final newline, tabs around '=' and ',' inside r/p definitions, blank/#/; lines at every position outside a continuation, an inline comment after every definition introduced by either marker and containing the other (quick tier: the definitions in the first 8 lines of each text; likewise the 4 KiB paddings and the over-long comment lines are placed at the first positions only), an inline comment before the backslash of a continued line, a comment line longer than the buffer above a line longer than the buffer, backslash continuation split at every single blank of every definition line incl. past 4 KiB, reversed and rotated section order): the assertions (Key, Value, Tokens, ParamsTokens of r/p/g/e/m) of the real NewModelFromString are compared with the Lean mirror (and NewModelFromFile on a file holding the same text must give the same outcome), and every variant with its original (same definitions, same resolved field indexes) and, for every variant that loads, on the example's policy with the original's decisions; arbitrary text (examples with random tokens spliced in or chunks deleted, random sequences over a 25-token alphabet; valid UTF-8 only) for totality; non-trivial = a variant that differs textually from its original and loads; distinct = variant text"
 	files, _ := filepath.Glob("/repo/examples/*.conf")
 	sort.Strings(files)
 	texts := map[string]string{}
@@ -340,7 +316,7 @@ func runC08(c *Ctx) {
 			if v != text {
 				c.Nontrivial(v)
 			}
-			if strings.HasPrefix(k, "rev") || strings.HasPrefix(k, "bigsplit") || strings.HasPrefix(k, "crlf") {
+			if vm != nil {
 				if d := decide(vm); d != origDec {
 					c.Direct("a layout change altered decisions", fmt.Sprintf("file=%s variant=%s", name, k))
 				}
